@@ -1856,6 +1856,34 @@ pub fn f19() -> Vec<Case> {
         c.prog.vars = vec![Decl::new("r", t), Decl::new("m", t)];
         out.push(c);
     }
+    // a function declared in a NAMESPACE computes the same as the plain function: the reference
+    // evaluates the plain twin, the runtime the namespaced text (value and tag)
+    for call in ["qualified", "using"] {
+        let f = Func {
+            name: "Twice".into(),
+            ret: Some(Ty::DInt),
+            inputs: vec![Decl::new("a", Ty::DInt)],
+            locals: vec![Decl::new("t", Ty::DInt)],
+            body: vec![assign("t", bin(Op::Mul, var("a"), lit(int(Ty::DInt, 2)))), assign("Twice", bin(Op::Add, var("t"), lit(int(Ty::DInt, 1))))],
+            ..Default::default()
+        };
+        let mut p = prog(
+            vec![Decl::new("x", Ty::DInt), Decl::init("k", int(Ty::DInt, 4))],
+            vec![assign("x", E::Call("Twice".into(), vec![Arg::Pos(var("k"))])), assign("k", bin(Op::Add, var("k"), var("x")))],
+        );
+        p.funcs.push(f);
+        let plain = super::ast::print(&p);
+        let Some(split) = plain.find("PROGRAM Main") else { continue };
+        let (funcs, main) = plain.split_at(split);
+        let text = if call == "qualified" {
+            format!("NAMESPACE Lib\n{funcs}END_NAMESPACE\n{}", main.replace("Twice(", "Lib.Twice("))
+        } else {
+            format!("NAMESPACE Lib\n{funcs}END_NAMESPACE\n{}", main.replacen("PROGRAM Main\n", "PROGRAM Main\nUSING Lib;\n", 1))
+        };
+        let mut c = case("F19", format!("namespaced-function:result:{call}"), p, 3, true);
+        c.raw = Some(text);
+        out.push(c);
+    }
     out.push(raw(
         "F19",
         "en-false:then-call-through-using",
